@@ -8,6 +8,6 @@ scripts/build.sh || exit 2
 cp /verif/.build/check $out/check
 for id in ${@:-C11 C17 C13 C14 C12 C01 C02 C03 C04 C05 C06 C07 C08 C15 C16 C18 C20 C10 C19 C09}; do
   s=$(date +%s)
-  VERIF_OUT=$out nice -n 10 $out/check $id --tier thorough > $out/thorough-$id.log 2>&1; rc=$?
+  VERIF_KEYS=all VERIF_OUT=$out nice -n 10 $out/check $id --tier thorough > $out/thorough-$id.log 2>&1; rc=$?
   echo "$id exit=$rc $(( $(date +%s)-s ))s viol=$(grep -c '^VIOLATION' $out/thorough-$id.log) known=$(grep -c '^KNOWN-FINDING' $out/thorough-$id.log)"
 done
